@@ -504,7 +504,8 @@ where
     let res_log_budget = checked_mul_pt_log_budget("mul_const", a.log_budget(), prec.log_budget, a.log_delta(), prec.log_delta)?;
     let res_log_delta = a.log_delta();
     let res_offset = (res_log_budget + res_log_delta).saturating_sub(res.max_k().as_usize());
-    let cnv_offset = prec.min_k(res.base2k()).as_usize() + res_offset;
+    // The constant's digits are encoded at log_delta + log_budget of its metadata (a multiple of base2k only for `to_znx`).
+    let cnv_offset = prec.effective_k() + res_offset;
 
     Ok((
         checked_log_budget_sub("mul_const", res_log_budget, res_offset)?,
